@@ -7,16 +7,23 @@ import GridVerif.Model.OdeSolve
 namespace GridVerif.Driver.C15
 open GridVerif.Proto GridVerif.Ode GridVerif.Gen.Ode
 
+def inf : Float := 1.0 / 0.0
+
 /-- A transform object whose five methods return the given values (the model only ever evaluates them
-at the one point of the op). -/
+at the one point of the op); domain = the whole line. -/
 def constTf (t inv d1 d2 d3 : Float) : TransformFns Float :=
-  ⟨fun _ => t, fun _ => inv, fun _ => d1, fun _ => d2, fun _ => d3⟩
+  ⟨fun _ => t, fun _ => inv, fun _ => d1, fun _ => d2, fun _ => d3, (-inf, inf)⟩
 
 def consts (a : List Float) : List (Coeff Float) := a.map Coeff.const
 
 def optVec : Option (List Float) → String → String
   | some v, _ => "ok " ++ sFloats v
   | none, err => err
+
+def errTag : OdeErr → String
+  | .valueError => "value-error"
+  | .notImplementedError => "not-implemented-error"
+  | .indexError => "index-error"
 
 def pBd : Nat → List String → Option (List (Nat × Nat × Float) × List String)
   | 0, rest => some ([], rest)
@@ -27,6 +34,20 @@ def pBd : Nat → List String → Option (List (Nat × Nat × Float) × List Str
     let (t, rest) ← pBd n rest
     pure ((i, j, c) :: t, rest)
   | _, _ => none
+
+def pFloats : Nat → List String → Option (List Float × List String)
+  | 0, rest => some ([], rest)
+  | n + 1, s :: rest => do
+    let v ← pFloat s
+    let (t, rest) ← pFloats n rest
+    pure (v :: t, rest)
+  | _, _ => none
+
+/-- A transform object given by its values at up to three points (`x0`, `x1`, anything else = the evaluation point). -/
+def tableTf (x0 x1 : Float) (at0 at1 atp : List Float) (lo hi : Float) : TransformFns Float :=
+  let pick (k : Nat) (x : Float) : Float :=
+    (if x == x0 then at0 else if x == x1 then at1 else atp).getD k 0.0
+  ⟨pick 0, pick 1, pick 2, pick 3, pick 4, (lo, hi)⟩
 
 /-- Line-protocol handler of property C15: `C15.<op> args…` ↦ one answer line
 (`none` = malformed, answered `bad-op`). -/
@@ -44,14 +65,16 @@ def handle : List String → Option String
       let d0 ← pFloat d0
       let d1 ← pFloat d1
       let d2 ← pFloat d2
-      pure (optVec (coeffB (evalCoeffs 0.0 (consts a)) d0 d1 d2) "not-modelled")
+      -- the generated `_transform_ode_from_rtransform` (coefficients through `_evaluate_coeffs_on_points`)
+      pure (optVec (transformOdeFromRtransform (consts a) (constTf 0.0 0.0 d0 d1 d2) 0.0) "not-modelled")
     | _ => none
   | "C15.dmat" :: order :: rest => do
     let order ← pNat order
     let (ds, tl) ← pVec pFloat rest
     if tl ≠ [] then none else
     if derivMatrixRaises order ds.length then pure "value-error" else
-    pure ("ok " ++ sMat sFloat (matRows (derivMatrix (bell (seqOfList ds)) order) order))
+    pure ("ok " ++ sMat sFloat
+      (matRows (derivativeTransformationMatrix (ds.map fun (d : Float) => fun (_ : Float) => d) 0.0 order) order))
   | "C15.explicit" :: rest => do
     let (y, rest) ← pVec pFloat rest
     let (b, rest) ← pVec pFloat rest
@@ -62,59 +85,126 @@ def handle : List String → Option String
       | some v => pure ("ok " ++ sFloat v)
       | none => pure "index-error"
     | _ => none
-  | "C15.func" :: rest => do
-    let (a, rest) ← pVec pFloat rest
-    match rest with
-    | d0 :: d1 :: d2 :: fx :: rest =>
-      let d0 ← pFloat d0
-      let d1 ← pFloat d1
-      let d2 ← pFloat d2
-      let fx ← pFloat fx
-      let (y, tl) ← pVec pFloat rest
-      if tl ≠ [] then none else
-      pure (optVec (odeFuncTransformed (consts a) (constTf 0.0 0.0 d0 d1 d2) (fun _ => fx) 0.0 y) "error")
-    | _ => none
-  | "C15.funcd" :: rest => do
-    let (a, rest) ← pVec pFloat rest
-    match rest with
-    | fx :: rest =>
-      let fx ← pFloat fx
-      let (y, tl) ← pVec pFloat rest
-      if tl ≠ [] then none else
-      pure (optVec (odeFuncDirect (consts a) (fun _ => fx) 0.0 y) "error")
-    | _ => none
-  | "C15.ivpinit" :: x0 :: x1 :: t0 :: t1 :: d0 :: d1 :: d2 :: rest => do
-    let x0 ← pFloat x0
-    let x1 ← pFloat x1
-    let t0 ← pFloat t0
-    let t1 ← pFloat t1
-    let d0 ← pFloat d0
-    let d1 ← pFloat d1
-    let d2 ← pFloat d2
-    let (y0, tl) ← pVec pFloat rest
-    if tl ≠ [] then none else
-    -- the transform object: `transform(x0) = t0`, `transform(x1) = t1`, derivatives at `x0` as given
-    let tf : TransformFns Float :=
-      ⟨fun x => if x == x0 then t0 else t1, fun _ => 0.0, fun _ => d0, fun _ => d1, fun _ => d2⟩
-    match ivpSetup tf x0 x1 y0 with
-    | some ((a, b), y) => pure ("ok " ++ sFloats (a :: b :: y))
-    | none => pure "index-error"
-  | "C15.back" :: order :: nod :: d0 :: d1 :: d2 :: rest => do
-    let order ← pNat order
-    let nod ← pNat nod
-    let d0 ← pFloat d0
-    let d1 ← pFloat d1
-    let d2 ← pFloat d2
-    let (interp, tl) ← pVec pFloat rest
-    if tl ≠ [] then none else
-    pure (optVec (returnedCallable (constTf 0.0 0.0 d0 d1 d2) order (nod != 0) (fun _ => interp) 0.0) "index-error")
-  | "C15.bc" :: n :: rest => do
-    let n ← pNat n
-    let (bd, rest) ← pBd n rest
-    let (ya, rest) ← pVec pFloat rest
-    let (yb, tl) ← pVec pFloat rest
-    if tl ≠ [] then none else
-    pure (optVec (bcResiduals bd ya yb) "index-error")
+  | op :: rest =>
+    if op == "C15.func" || op == "C15.bfunc" then do
+      let (a, rest) ← pVec pFloat rest
+      match rest with
+      | d0 :: d1 :: d2 :: fx :: rest =>
+        let d0 ← pFloat d0
+        let d1 ← pFloat d1
+        let d2 ← pFloat d2
+        let fx ← pFloat fx
+        let (y, tl) ← pVec pFloat rest
+        if tl ≠ [] then none else
+        let f := if op == "C15.func" then ivpFunc (K := Float) else bvpFunc (K := Float)
+        pure (optVec (f (consts a) (some (constTf 0.0 0.0 d0 d1 d2)) (fun _ => fx) 0.0 y) "error")
+      | _ => none
+    else if op == "C15.funcd" || op == "C15.bfuncd" then do
+      let (a, rest) ← pVec pFloat rest
+      match rest with
+      | fx :: rest =>
+        let fx ← pFloat fx
+        let (y, tl) ← pVec pFloat rest
+        if tl ≠ [] then none else
+        let f := if op == "C15.funcd" then ivpFunc (K := Float) else bvpFunc (K := Float)
+        pure (optVec (f (consts a) none (fun _ => fx) 0.0 y) "error")
+      | _ => none
+    else if op == "C15.ivpinit" then
+      match rest with
+      | x0 :: x1 :: t0 :: t1 :: d0 :: d1 :: d2 :: rest => do
+        let x0 ← pFloat x0
+        let x1 ← pFloat x1
+        let t0 ← pFloat t0
+        let t1 ← pFloat t1
+        let d0 ← pFloat d0
+        let d1 ← pFloat d1
+        let d2 ← pFloat d2
+        let (y0, tl) ← pVec pFloat rest
+        if tl ≠ [] then none else
+        -- the transform object: `transform(x0) = t0`, `transform(x1) = t1`, derivatives at `x0` as given
+        let tf := tableTf x0 x1 [t0, 0.0, d0, d1, d2] [t1, 0.0, d0, d1, d2] [t1, 0.0, d0, d1, d2] (-inf) inf
+        match ivpTransformSetup forwardSolve Float.isInf [x0, x1] y0 tf y0.length with
+        | .ok (sp, y) => pure ("ok " ++ sFloats (sp ++ y))
+        | .error e => pure (errTag e)
+      | _ => none
+    else if op == "C15.back" then
+      match rest with
+      | order :: nod :: d0 :: d1 :: d2 :: rest => do
+        let order ← pNat order
+        let nod ← pNat nod
+        let d0 ← pFloat d0
+        let d1 ← pFloat d1
+        let d2 ← pFloat d2
+        let (interp, tl) ← pVec pFloat rest
+        if tl ≠ [] then none else
+        pure (optVec (transformSolutionToOriginalDomain (okResult fun _ => interp) (constTf 0.0 0.0 d0 d1 d2) (nod != 0)
+          order 0.0) "index-error")
+      | _ => none
+    else if op == "C15.bc" then
+      match rest with
+      | n :: rest => do
+        let n ← pNat n
+        let (bd, rest) ← pBd n rest
+        let (ya, rest) ← pVec pFloat rest
+        let (yb, tl) ← pVec pFloat rest
+        if tl ≠ [] then none else
+        pure (optVec (bvpBc bd ya yb) "index-error")
+      | _ => none
+    else if op == "C15.solveivp" then do
+      -- whole `solve_ode_ivp`: has_tf nod status | x0 x1 pt | lo hi | 5 values of the transform at x0, x1, pt |
+      -- coefficients | y0 | dense output (constant column)
+      match rest with
+      | hastf :: nod :: status :: x0 :: x1 :: pt :: lo :: hi :: rest =>
+        let hastf ← pNat hastf
+        let nod ← pNat nod
+        let status ← pInt status
+        let x0 ← pFloat x0
+        let x1 ← pFloat x1
+        let pt ← pFloat pt
+        let lo ← pFloat lo
+        let hi ← pFloat hi
+        let (at0, rest) ← pFloats 5 rest
+        let (at1, rest) ← pFloats 5 rest
+        let (atp, rest) ← pFloats 5 rest
+        let (a, rest) ← pVec pFloat rest
+        let (y0, rest) ← pVec pFloat rest
+        let (interp, tl) ← pVec pFloat rest
+        if tl ≠ [] then none else
+        let tf := if hastf != 0 then some (tableTf x0 x1 at0 at1 atp lo hi) else none
+        -- the recorder: remembers nothing, answers with the given status and dense output; span / y0 it was handed
+        -- are reported through the second run below
+        let solve_ivp := fun (_ : Float → List Float → Option (List Float)) (_ _ : List Float) =>
+          (⟨status, fun _ => interp⟩ : SolveResult Float)
+        match solveOdeIvp solve_ivp forwardSolve Float.isInf [x0, x1] (fun _ => 0.0) (consts a) y0 tf (nod != 0) with
+        | .error e => pure (errTag e)
+        | .ok F => pure (optVec (F pt) "index-error")
+      | _ => none
+    else if op == "C15.solvebvp" then do
+      -- whole `solve_ode_bvp`: has_tf nod status | pt | 5 values of the transform at pt | coefficients | n bd | dense output
+      match rest with
+      | hastf :: nod :: status :: pt :: rest =>
+        let hastf ← pNat hastf
+        let nod ← pNat nod
+        let status ← pInt status
+        let pt ← pFloat pt
+        let (atp, rest) ← pFloats 5 rest
+        let (a, rest) ← pVec pFloat rest
+        match rest with
+        | n :: rest =>
+          let n ← pNat n
+          let (bd, rest) ← pBd n rest
+          let (interp, tl) ← pVec pFloat rest
+          if tl ≠ [] then none else
+          let tf := if hastf != 0 then some (tableTf pt pt atp atp atp (-inf) inf) else none
+          let solve_bvp := fun (_ : Float → List Float → Option (List Float))
+              (_ : List Float → List Float → Option (List Float)) (_ : List Float) =>
+            (⟨status, fun _ => interp⟩ : SolveResult Float)
+          match solveOdeBvp solve_bvp [pt] (fun _ => 0.0) (consts a) bd tf (nod != 0) with
+          | .error e => pure (errTag e)
+          | .ok F => pure (optVec (F pt) "index-error")
+        | _ => none
+      | _ => none
+    else none
   | _ => none
 
 end GridVerif.Driver.C15
